@@ -8,10 +8,12 @@ Method: (1) facts about one byte are proved for all 256 values by kernel evaluat
 -/
 import ChibiVerif.Gen.LiteralsGen
 import ChibiVerif.Spec.LiteralsSpec
+import ChibiVerif.Model.Literals
 
 namespace ChibiVerif.Lemmas.Literals
 open ChibiVerif.Gen.Literals
 open ChibiVerif.Spec.Literals
+open ChibiVerif.Literals (collapse)
 
 -- ------------------------------------------------------------------ Nat bit tricks
 
@@ -292,5 +294,42 @@ theorem sshr_ne_zero (v : BitVec 64) (k : Nat) (hk : k < 64) : (v.sshiftRight k 
       have := BitVec.msb_sshiftRight (x := v) (n := k)
       rw [h0, hm] at this
       simp at this
+
+/-- the ladder of `convert_pp_int` picks the first type of the 6.4.4.1p5 list that represents the value -/
+theorem ladder_spec (base : Nat) (hb : base = 2 ∨ base = 8 ∨ base = 10 ∨ base = 16) (s : Suffix) (v : BitVec 64) (t : IntType)
+    (h : litType (base == 10) s v.toNat = some t) : intLitType base s.hasL s.hasU v = collapse t := by
+  have hv := v.isLt
+  have e31 := sshr_ne_zero v 31 (by decide)
+  have e32 := sshr_ne_zero v 32 (by decide)
+  have e63 := sshr_ne_zero v 63 (by decide)
+  unfold intLitType
+  simp only [e31, e32, e63]
+  by_cases h31 : v.toNat < 2^31
+  · have h32 : v.toNat < 2^32 := by omega
+    have h63 : v.toNat < 2^63 := by omega
+    have n31 : ¬ v.toNat ≥ 2^31 := by omega
+    have n32 : ¬ v.toNat ≥ 2^32 := by omega
+    have n63 : ¬ v.toNat ≥ 2^63 := by omega
+    rcases hb with rfl | rfl | rfl | rfl <;> cases s <;>
+      simp [litType, candidates, IntType.represents, IntType.isSigned, IntType.bits, Suffix.hasL, Suffix.hasU,
+        h31, h32, h63, hv, n31, n32, n63] at h ⊢ <;> subst h <;> rfl
+  · have n31 : v.toNat ≥ 2^31 := by omega
+    by_cases h32 : v.toNat < 2^32
+    · have h63 : v.toNat < 2^63 := by omega
+      have n32 : ¬ v.toNat ≥ 2^32 := by omega
+      have n63 : ¬ v.toNat ≥ 2^63 := by omega
+      rcases hb with rfl | rfl | rfl | rfl <;> cases s <;>
+        simp [litType, candidates, IntType.represents, IntType.isSigned, IntType.bits, Suffix.hasL, Suffix.hasU,
+          h31, h32, h63, hv, n31, n32, n63] at h ⊢ <;> subst h <;> rfl
+    · have n32 : v.toNat ≥ 2^32 := by omega
+      by_cases h63 : v.toNat < 2^63
+      · have n63 : ¬ v.toNat ≥ 2^63 := by omega
+        rcases hb with rfl | rfl | rfl | rfl <;> cases s <;>
+          simp [litType, candidates, IntType.represents, IntType.isSigned, IntType.bits, Suffix.hasL, Suffix.hasU,
+            h31, h32, h63, hv, n31, n32, n63] at h ⊢ <;> subst h <;> rfl
+      · have n63 : v.toNat ≥ 2^63 := by omega
+        rcases hb with rfl | rfl | rfl | rfl <;> cases s <;>
+          simp [litType, candidates, IntType.represents, IntType.isSigned, IntType.bits, Suffix.hasL, Suffix.hasU,
+            h31, h32, h63, hv, n32, n63] at h ⊢ <;> subst h <;> rfl
 
 end ChibiVerif.Lemmas.Literals
